@@ -213,6 +213,45 @@ def r7_types_keyed_by_identity(ctx):
     ctx.ob('C02.R7', 'no-map-keyed-by-a-rendered-type', bad == 0, '', '%d map operation(s) keyed by a rendered type; %d keyed by the type itself' % (bad, n_by_type))
 
 
+# documented exemptions that must keep deciding, at the named level of the walk, whether a component is examined at all
+REQUIRED_EXEMPTIONS = [
+    ('analyses::constructibles::ConstructibleDb::error_observers_cannot_depend_on_fallible_components', ('pop', 'pop_front', 'pop_back'),
+     'analyses::components::db::ComponentDb::lifecycle',
+     'error observers may depend on fallible SINGLETONS (built before any request is served), at any depth of the dependency walk'),
+    ('analyses::constructibles::ConstructibleDb::verify_lifecycle_of_singleton_dependencies', ('next',),
+     'analyses::components::db::ComponentDb::lifecycle', 'only singletons are subject to the "no shorter-lived dependency" rule'),
+    ('analyses::cloning::cloneables_can_be_cloned', ('next',), 'analyses::components::db::ComponentDb::cloning_policy',
+     'only clone-if-necessary components must implement Clone'),
+]
+
+
+def r8_exemptions_at_every_level(ctx):
+    from .c08 import skip_predicates
+    from .compiler_common import cg, expand_same_file
+    ctx.rule('C02.R8', 'P1 + table: the documented exemptions of three rule checkers still decide, inside the loop that performs the walk, whether '
+             'a component is examined: the lifecycle test (singletons) in the work-list loop of the error-observer check, the lifecycle test '
+             'of verify_lifecycle_of_singleton_dependencies, the cloning-policy test of cloneables_can_be_cloned. An exemption applied '
+             'only to the direct inputs rejects blueprints the documentation allows.')
+    g, mp = cg(ctx)
+    for fn, head_kinds, pred, why in REQUIRED_EXEMPTIONS:
+        bodies = ctx.fb.bodies_of_item('pavexc', PX + fn)
+        if not ctx.need('C02.R8', fn, bodies):
+            continue
+        found = False
+        for b in bodies:
+            for (H, W), cs in skip_predicates(b, mp, with_closures=False).items():
+                hk = (callee(b.term(H)) or '').split('::')[-1]
+                if hk not in head_kinds:
+                    continue
+                flat = set()
+                for c0 in cs:
+                    flat |= expand_same_file(ctx, 'pavexc', c0, b.file, stop={PX + fn})
+                if PX + pred in flat:
+                    found = True
+        ctx.ob('C02.R8', 'exemption|%s' % fn.split('::')[-1], found, bodies[0].loc(),
+               '%s decides a skip inside the %s-loop of %s: %s (%s)' % (pred.split('::')[-1], '/'.join(head_kinds), fn.split('::')[-1], found, why))
+
+
 def check(ctx):
     r1_exemptions_first(ctx)
     r2_control_flow_test(ctx)
@@ -221,3 +260,4 @@ def check(ctx):
     r5_rebinding(ctx)
     r6_derived_cloning_policy(ctx)
     r7_types_keyed_by_identity(ctx)
+    r8_exemptions_at_every_level(ctx)
